@@ -10,67 +10,63 @@ ASSUMPTIONS = C05.ASSUMPTIONS + ["exactness is a theorem given M*K=1; numericall
 
 def correspondence(ctx):
     r = C05.correspondence(ctx, on_data=True)
-    r["rule"] = "as C05, with the targets placed on conditioning points (right-hand side = matrix column): " + r["rule"]
+    r["rule"] = ("as C05, with the targets placed on conditioning points (right-hand side = matrix column) and the histories run in the "
+                 "zero-measurement-error modes (exact / zero error / nugget-free): " + r["rule"])
     return r
 
 
 def search(ctx, deep=False):
+    with warnings.catch_warnings():   # out-of-range / dimension warnings of generated inputs are expected
+        warnings.simplefilter("ignore")
+        return _search(ctx, deep)
+
+
+def _search(ctx, deep=False):
     import gstools as gs
     rng = np.random.RandomState(ctx.seed + 66)
-    N = ctx.scale(60, 500) * (3 if deep else 1)
+    N = ctx.scale(120, 800) * (3 if deep else 1)
     viol, ev = C05.probe_d16(), 1
+    tags = {}
     for t in range(N):
         cfg = kc.gen_config(rng, latlon_ok=True)
-        zero_err = cfg["exact"] or (isinstance(cfg["cond_err"], float) and cfg["cond_err"] == 0.0)
-        mr = np.random.RandomState(cfg["model_seed"])
         # force zero measurement error: exact mode, or explicit zero error, or nugget-free model
         mode = str(rng.choice(["exact", "zero-err", "no-nugget"]))
-        model = kc.make_model(mr, cfg["dim"], cfg["latlon"], cfg["temporal"], nugget=0.0 if mode == "no-nugget" else None)
-        cfg2 = dict(cfg)
-        if mode == "exact":
-            cfg2.update(exact=True, cond_err="nugget")
-        elif mode == "zero-err":
-            cfg2.update(exact=False, cond_err=0.0)
-        else:
-            cfg2.update(exact=False, cond_err="nugget")
-        norm = rng.choice(["none", "LogNormal", "YeoJohnson"]) if cfg["variant"] != "Detrended" else "none"
-        cdesc = {k: (v.tolist() if isinstance(v, np.ndarray) else v) for k, v in cfg2.items() if k != "ext"}
-        cdesc.update(mode=mode, model=repr(model), normalizer=str(norm))
+        cfg2 = C05.zero_cfg(cfg, mode)
+        model = kc.make_hist_model(cfg2, mode)
+        cv = cfg2["cond_val"]
+        cdesc = kc.describe(cfg2)
+        cdesc.update(mode=mode, model=repr(model))
+        cap = []
         try:
             with warnings.catch_warnings():
                 warnings.simplefilter("ignore")
                 kr = kc.build(cfg2, model=model)
-                if norm != "none":
-                    cv = np.abs(cfg2["cond_val"]) + 0.5 if norm == "LogNormal" else cfg2["cond_val"]
-                    kr.normalizer = getattr(gs.normalizer, norm)()
-                    kr.set_condition(cond_val=cv)
-                else:
-                    cv = cfg2["cond_val"]
                 kw = {"ext_drift": cfg2["ext"][0]} if cfg2["ext"] else {}
                 f, v = kr(cfg2["cond_pos"], **kw)
-                K = None
-        except Exception as e:
-            continue
-        # numerical non-singularity guard: condition number of the assembled system
-        try:
-            cap = []
-            with warnings.catch_warnings():
-                warnings.simplefilter("ignore")
-                kc.build(cfg2, capture=cap, model=model)
+                fr, vr = kr(cfg2["cond_pos"], post_process=False, **kw)
+                # numerical non-singularity guard: condition number of the assembled system
+                kc.build(cfg2, capture=cap, model=kc.make_hist_model(cfg2, mode))
             cond = np.linalg.cond(cap[-1])
-        except Exception:
+        except Exception as e:
             continue
         if cond > 1e8:
             continue
         ev += 1
-        scale = 1 + np.abs(cv).max()
-        tol = 1e-7 * scale * max(1.0, cond / 1e3)
-        if not np.allclose(f, cv, atol=tol):
-            viol.append({"key": f"krige:exactness:{cfg2['variant']}:{mode}", "what": "kriged field at conditioning points differs from the data",
+        mtag = kc.mnt_tag(cfg2)
+        tags[mtag] = tags.get(mtag, 0) + 1
+        # through mean / normalizer / trend: the post-processed field returns the data themselves ...
+        if not C05.close_nan(f, cv, C05.data_tol(cfg2, cond)):
+            viol.append({"key": f"krige:exactness:{cfg2['variant']}:{mode}", "what": "kriged field at conditioning points differs from the data (" + mtag + ")",
                          "case": cdesc, "got": np.asarray(f).tolist(), "want": np.asarray(cv).tolist(), "cond": cond})
+        # ... and the raw field returns the independently prepared data normalize(cond_val - trend) - mean
+        z = kc.prepared_data(cfg2)
+        if not C05.close_nan(fr, z, 1e-7 * (1 + np.abs(z).max()) * max(1.0, cond / 1e3)):
+            viol.append({"key": f"krige:exactness-raw:{cfg2['variant']}:{mode}", "what": "raw kriged field at conditioning points differs from "
+                         "normalize(cond_val - trend) - mean (" + mtag + ")",
+                         "case": cdesc, "got": np.asarray(fr).tolist(), "want": np.asarray(z).tolist(), "cond": cond})
         # zero measurement error on a model WITH nugget: the datum is honoured, the variance is the nugget
         v_expected = model.nugget if mode == "zero-err" else 0.0
-        if not np.all(np.abs(v - v_expected) <= 1e-7 * model.sill * max(1.0, cond / 1e3)):
+        if not (np.all(np.abs(v - v_expected) <= 1e-7 * model.sill * max(1.0, cond / 1e3)) and np.array_equal(v, vr)):
             viol.append({"key": f"krige:zero-variance:{cfg2['variant']}:{mode}", "what": "kriging variance at conditioning points is not zero",
                          "case": cdesc, "got": np.asarray(v).tolist(), "cond": cond})
         # variance bounds at arbitrary targets
@@ -81,8 +77,12 @@ def search(ctx, deep=False):
         ev += 1
         if np.any(vv < 0):
             viol.append({"key": "krige:negative-variance", "what": "negative kriging variance", "case": cdesc, "got": vv.tolist()})
-        if cfg2["variant"] == "Simple" and np.any(vv > model.sill * (1 + 1e-9)):
+        if not kc.is_unbiased(cfg2) and not kc.drift_callables(cfg2) and cfg2["ext"] is None and np.any(vv > model.sill * (1 + 1e-9)):
             viol.append({"key": "krige:variance-above-sill", "what": "simple kriging variance exceeds the sill", "case": cdesc, "got": vv.tolist()})
+    # objects with a history (model edits, re-assignments, set_condition forms): exactness for the CURRENT data
+    hv, hev, hsum = C05.search_histories(ctx, rng, deep, zero=True)
+    viol += hv
+    ev += hev
     # duplicated conditioning points with the pseudo inverse act as one point carrying the mean value
     for t in range(ctx.scale(15, 100)):
         dim = int(rng.randint(1, 4))
@@ -107,4 +107,6 @@ def search(ctx, deep=False):
                          "case": dict(cond_pos=cp2.tolist(), cond_val=cv2.tolist(), pos=tp.tolist(), model=repr(model)),
                          "got": [a[0].tolist(), a[1].tolist()], "want": [b[0].tolist(), b[1].tolist()]})
     return {"evaluations": ev, "violations": viol[:8],
-            "summary": "real Krige variants: data reproduced and zero variance at conditioning points (exact mode / zero error / no nugget; with normalizers), 0 <= var (<= sill for simple), duplicated points with pinv"}
+            "summary": "real Krige variants (+ generic class): data reproduced through mean/normalizer/trend (6 non-identity normalizers x constant/callable "
+                       f"mean x trend: {len(tags)} combinations) and zero variance at conditioning points (exact mode / zero error / no nugget), raw field = "
+                       "independently prepared data, 0 <= var (<= sill for simple), duplicated points with pinv; " + hsum}
